@@ -4,6 +4,7 @@ import XalanModel.C15.StripValues
 import XalanModel.C15.ConcreteProofs
 import XalanModel.Generated.C15_FunctionKey
 import XalanModel.Generated.C15_ExecContext
+import XalanModel.Generated.C15_ObjectNames
 /-!
 # C15 — key() returns exactly the nodes its xsl:key declaration defines
 
@@ -452,6 +453,37 @@ example : cxEnv.Indexed := by
     subst this; exact Nat.zero_le _
 example : runCalls cxEnv false [] [⟨0, "k", .str "x"⟩, ⟨1, "k", .nodeset ["", "x"]⟩, ⟨0, "zz", .str ""⟩, ⟨0, "k", .str ""⟩] =
     [some [], some [1], none, some [1]] := by decide
+
+/-! ### names of XSLT objects and the default namespace (XSLT 1.0 §2.4) -/
+section ObjectNames
+open XalanModel.C15.Concrete
+
+/-- what the QName of a `createXalanQName` call site names, for the sites that name an XSLT *object* -/
+def objectKinds : List String :=
+  ["key-name", "template-name", "template-mode", "apply-templates-mode", "attribute-set-name", "call-template-name",
+   "decimal-format-name", "variable-or-param-name", "with-param-name"]
+
+/-- **No object name takes the default namespace** (table regenerated from every `createXalanQName` call of
+src/xalanc/XSLT/*.cpp by `translate/c15_objectnames.py`): every call site is classified, every site that names an XSLT
+object — the `xsl:key` name in `Stylesheet::processKeyElement`, template names and modes, attribute sets, decimal
+formats, variables/parameters, `xsl:with-param`, `xsl:call-template` — passes `fUseDefault = false`, and each of these
+kinds of site exists.  (Element names, e.g. `cdata-section-elements`, rightly pass `true`.)  With `true` at the key
+site an unprefixed `xsl:key` name declared under `xmlns="…"` would be filed under `{default-ns}name` and
+`key('name', …)` would fail with the UnknownKey error. -/
+theorem object_names_ignore_default_namespace :
+    (∀ s ∈ XalanModel.Generated.C15_ObjectNames.sites,
+        s.2.1 ≠ "unclassified" ∧ (s.2.1 ∈ objectKinds → s.2.2 = false)) ∧
+    (∀ k ∈ objectKinds, ∃ s ∈ XalanModel.Generated.C15_ObjectNames.sites, s.2.1 = k) := by decide
+
+/-- the model's name resolution: a default namespace declaration in scope never changes the expanded name of an
+unprefixed object name -/
+theorem unprefixed_object_name_ignores_default (ctx : NsContext) (uri lex : String)
+    (h : ∀ p l, lex.splitOn ":" ≠ [p, l]) :
+    resolveObjectName (ctx ++ [("", uri)]) lex = lex ∧ resolveObjectName ctx lex = lex := by
+  unfold resolveObjectName
+  constructor <;> split <;> first | rfl | (rename_i p l hp; exact absurd hp (h p l))
+
+end ObjectNames
 
 /-! ### the abstract parameters instantiated: concrete documents, patterns and `use` expressions of the generated fragment -/
 section ConcreteInstance
